@@ -4,12 +4,9 @@
 //! usage: worker_driver <scripts.ndjson> <traces.ndjson> [--threads N]
 
 use std::{
-	collections::{BTreeMap, HashMap},
+	collections::HashMap,
 	io::{BufRead, BufWriter, Write},
-	sync::{
-		atomic::{AtomicUsize, Ordering},
-		Arc, Mutex,
-	},
+	sync::{Arc, Mutex},
 	time::Duration,
 };
 
@@ -130,11 +127,12 @@ fn prio(p: u8) -> Priority {
 	}
 }
 
-async fn run_script(script: Script) -> Vec<Ev> {
+async fn run_script(script: Script, slot: verif_harness::pool::Slot) -> Vec<Ev> {
 	let start = Instant::now();
 	let rec = Recorder::new(Arc::new(move || {
 		i64::try_from(start.elapsed().as_millis()).unwrap_or(i64::MAX)
 	}));
+	*slot.lock().unwrap() = Some(rec.clone());
 	{
 		// the filesystem and keyboard workers of the same Watchexec have trace points of their own
 		// (C13's alphabet); they are not part of this family's
@@ -187,6 +185,7 @@ async fn run_script(script: Script) -> Vec<Ev> {
 		by_id: Arc<HashMap<i64, Evt>>,
 		config: Arc<Mutex<Option<Arc<Watchexec>>>>,
 		generation: i64,
+		gen_now: Arc<std::sync::atomic::AtomicI64>,
 	) -> impl Fn(watchexec::ErrorHook) + Send + Sync + 'static {
 		move |hook: watchexec::ErrorHook| {
 			let id = error_id(&format!("{:?}", hook.error));
@@ -198,7 +197,8 @@ async fn run_script(script: Script) -> Vec<Ev> {
 				"critical" => hook.critical(CriticalError::External("verif".into())),
 				"replace" => {
 					if let Some(wx) = config.lock().unwrap().as_ref() {
-						wx.config.on_error(make_error_handler(rec.clone(), by_id.clone(), config.clone(), generation + 1));
+						gen_now.store(generation + 1, std::sync::atomic::Ordering::SeqCst);
+						wx.config.on_error(make_error_handler(rec.clone(), by_id.clone(), config.clone(), generation + 1, gen_now.clone()));
 					}
 				}
 				_ => {}
@@ -206,7 +206,8 @@ async fn run_script(script: Script) -> Vec<Ev> {
 		}
 	}
 	let wx_slot: Arc<Mutex<Option<Arc<Watchexec>>>> = Arc::new(Mutex::new(None));
-	config.on_error(make_error_handler(rec.clone(), by_id.clone(), wx_slot.clone(), 0));
+	let gen_now = Arc::new(std::sync::atomic::AtomicI64::new(0));
+	config.on_error(make_error_handler(rec.clone(), by_id.clone(), wx_slot.clone(), 0, gen_now.clone()));
 	{
 		let by_id = by_id.clone();
 		watchexec::verif::set_error_delay(Some(Arc::new(move |err| {
@@ -222,13 +223,18 @@ async fn run_script(script: Script) -> Vec<Ev> {
 	let jobs_made: Arc<Mutex<HashMap<usize, Job>>> = Arc::new(Mutex::new(HashMap::new()));
 	let kept: Arc<Mutex<Vec<Job>>> = Arc::new(Mutex::new(Vec::new()));
 	let job_kids = Arc::new(script.jobs.clone());
-	let handler_body = {
+	// (re)installs the action handler; set below, called from inside the handler by "reconfig"
+	type Installer = Arc<dyn Fn() + Send + Sync>;
+	let reinstall: Arc<std::sync::OnceLock<Installer>> = Arc::new(std::sync::OnceLock::new());
+	let handler_body: Arc<dyn Fn(&mut watchexec::action::ActionHandler) -> u64 + Send + Sync> = {
 		let rec = rec.clone();
 		let by_id = by_id.clone();
 		let wxc = wx.clone();
 		let jobs_made = jobs_made.clone();
 		let kept = kept.clone();
-		move |action: &mut watchexec::action::ActionHandler| -> u64 {
+		let reinstall = reinstall.clone();
+		let (wx_slot, gen_now) = (wx_slot.clone(), gen_now.clone());
+		Arc::new(move |action: &mut watchexec::action::ActionHandler| -> u64 {
 			let ids: Vec<i64> = action.events.iter().map(event_id).collect();
 			let mut ev = Ev::new("handler_in");
 			ev.pending = Some(ids.clone());
@@ -300,7 +306,18 @@ async fn run_script(script: Script) -> Vec<Ev> {
 							wxc.config.file_watcher(watchexec::sources::fs::Watcher::Native);
 							wxc.config.keyboard_events(false);
 							wxc.config.throttle(Duration::from_millis(e.arg));
-							wxc.config.on_error(|_| {});
+							// (an error handler like the one installed: same generation, later errors go to it)
+							wxc.config.on_error(make_error_handler(
+								rec.clone(),
+								by_id.clone(),
+								wx_slot.clone(),
+								gen_now.load(std::sync::atomic::Ordering::SeqCst),
+								gen_now.clone(),
+							));
+							// ... the action handler itself included: the invocation in progress goes on
+							if let Some(install) = reinstall.get() {
+								install();
+							}
 							rec.rec(Ev::new("throttle").x(e.arg as i64));
 						}
 						"quit" => {
@@ -316,29 +333,35 @@ async fn run_script(script: Script) -> Vec<Ev> {
 				}
 			}
 			hold
-		}
+		})
 	};
-	if script.sync_handler {
-		let rec = rec.clone();
-		wx.config.on_action(move |mut action| {
-			let _ = handler_body(&mut action);
-			rec.rec(Ev::new("handler_out"));
-			action
-		});
-	} else {
-		let rec = rec.clone();
-		wx.config.on_action_async(move |mut action| {
-			let hold = handler_body(&mut action);
-			let rec = rec.clone();
-			Box::new(async move {
-				if hold > 0 {
-					tokio::time::sleep(Duration::from_millis(hold)).await;
-				}
-				rec.rec(Ev::new("handler_out"));
-				action
-			})
-		});
-	}
+	let install: Installer = {
+		let (rec, wxc, handler_body, sync) = (rec.clone(), wx.clone(), handler_body.clone(), script.sync_handler);
+		Arc::new(move || {
+			let (rec, handler_body) = (rec.clone(), handler_body.clone());
+			if sync {
+				wxc.config.on_action(move |mut action| {
+					let _ = handler_body(&mut action);
+					rec.rec(Ev::new("handler_out"));
+					action
+				});
+			} else {
+				wxc.config.on_action_async(move |mut action| {
+					let hold = handler_body(&mut action);
+					let rec = rec.clone();
+					Box::new(async move {
+						if hold > 0 {
+							tokio::time::sleep(Duration::from_millis(hold)).await;
+						}
+						rec.rec(Ev::new("handler_out"));
+						action
+					})
+				});
+			}
+		})
+	};
+	let _ = reinstall.set(install.clone());
+	install();
 
 	let main = wx.main();
 	{
@@ -422,37 +445,28 @@ fn main() {
 		.map(|l| serde_json::from_str(&l).expect("script json"))
 		.collect();
 	let scripts = Arc::new(scripts);
-	let next = Arc::new(AtomicUsize::new(0));
-	let results: Arc<Mutex<BTreeMap<usize, Vec<Ev>>>> = Arc::new(Mutex::new(BTreeMap::new()));
-
-	let mut handles = Vec::new();
-	for _ in 0..threads {
-		let (scripts, next, results) = (scripts.clone(), next.clone(), results.clone());
-		handles.push(std::thread::spawn(move || loop {
-			let i = next.fetch_add(1, Ordering::SeqCst);
-			if i >= scripts.len() {
-				break;
-			}
-			let script = scripts[i].clone();
+	let results = verif_harness::pool::run_pool(
+		scripts,
+		threads,
+		|s: &Script| s.id.clone(),
+		Arc::new(|script: Script, slot| {
 			let rt = tokio::runtime::Builder::new_current_thread()
 				.enable_all()
 				.start_paused(true)
 				.build()
 				.unwrap();
-			let events = std::panic::catch_unwind(std::panic::AssertUnwindSafe(|| {
-				rt.block_on(run_script(script))
-			}))
-			.unwrap_or_else(|_| vec![Ev::new("driver_panic").a(scripts[i].id.clone())]);
+			let events = rt.block_on(run_script(script, slot));
 			drop(rt);
-			results.lock().unwrap().insert(i, events);
-		}));
-	}
-	for h in handles {
-		h.join().unwrap();
-	}
+			events
+		}),
+		Duration::from_secs(60),
+		Duration::from_secs(8),
+	);
 	let mut out = BufWriter::new(std::fs::File::create(out_path).expect("out file"));
-	for events in results.lock().unwrap().values() {
+	for events in results.values() {
 		write_events(&mut out, events).unwrap();
 	}
 	out.flush().unwrap();
+	// threads blocked for good by a deadlock in the code under test are left behind
+	std::process::exit(0);
 }
